@@ -419,10 +419,25 @@ structure FlNHG where
   BackupNextHopGroup : Option Nat
   deriving DecidableEq, Repr, Inhabited
 
-/-- `client.ClientErr` as chk's helpers look at it: the send and the receive errors -/
+/-- a gRPC status as `HasRecvClientErrorWithStatus` compares it (`*status.Status` / its protobuf):
+code, message, and the details (opaque: only dropped or compared whole) -/
+structure GStatus where
+  Code : Nat
+  Message : String := ""
+  Details : Option String := none
+  deriving DecidableEq, Repr, Inhabited
+
+/-- an option of `HasRecvClientErrorWithStatus`: `AllowUnimplemented()` or `IgnoreDetails()` -/
+structure ErrOptG where
+  IsAllowUnimplemented : Bool
+  IsIgnoreDetails : Bool
+  deriving DecidableEq, Repr, Inhabited
+
+/-- `client.ClientErr` as chk's helpers look at it: the send errors, and the receive errors each as
+what `status.FromError` makes of it (none: not a gRPC status) -/
 structure ClientErrG where
   Send : List Status
-  Recv : List Status
+  Recv : List (Option GStatus)
   deriving DecidableEq, Repr, Inhabited
 
 /-- a non-nil `error` as chk's helpers look at it: `AsClientErr` is what it holds when its
